@@ -7,8 +7,8 @@ CONSTANTS
   BS <- cBS
   Alphabet <- DqAlphabet
   MaxLen = 5
-  Prefix <- cMbPrefix
-  Suffix <- cNoPrefix
+  Prefix <- cPatBlkPrefix
+  Suffix <- cPatBlkSuffix
   PatternKw <- cPattern
 INIT Init
 NEXT Next
